@@ -53,9 +53,6 @@ class SpecArray(object):
         """Initialise spec accessor."""
         self._obj = xarray_obj
 
-        # These are set when property is first called to avoid computing more than once
-        self._df = None
-        self._dd = None
 
     def __repr__(self):
         return re.sub(r"<([^\s]+)", "<%s" % (self.__class__.__name__), str(self._obj))
@@ -94,16 +91,13 @@ class SpecArray(object):
     @property
     def dd(self):
         """Direction resolution float."""
-        if self._dd is not None:
-            return self._dd
         if self.dir is not None and len(self.dir) > 1:
             # Spacing between the first two stored directions, the short way round
             # the circle so that a 0/360 seam between them does not inflate it
             dd = abs(float(self.dir[1] - self.dir[0])) % 360
-            self._dd = min(dd, 360 - dd)
+            return min(dd, 360 - dd)
         else:
-            self._dd = 1.0
-        return self._dd
+            return 1.0
 
     @property
     def partition(self):
